@@ -14,6 +14,10 @@
 #     configuration has only two request ids, so the counter wraps onto ids that may still be pending
 #     (realised with uasc.VerifSetRequestID): the duplicate registration must be refused and the first
 #     user of the id must still get its response.
+#     In the many-caller runs one further caller per three (or per one) normal callers issues requests
+#     whose context has already ended or ends while the multi-chunk request is being written (ScCorr
+#     InvokeCancelled), concurrently with the dispatch of the others' responses: context error, promptly,
+#     slot released, nobody else affected.
 #  4. Many-caller runs (random answer permutations, a request pending while >256 / >65536 other
 #     request ids are used) are checked against the same invariants.
 import json
@@ -64,17 +68,19 @@ def body(run):
     # many-caller runs
     base = len(cases)
     stress = [dict(callers=8, rounds=3, stride=1, wrap=False), dict(callers=8, rounds=2, stride=300, wrap=True),
-              dict(callers=6, rounds=3, stride=1, wrap=False, big=True)]
+              dict(callers=6, rounds=3, stride=1, wrap=False, big=True), dict(callers=8, rounds=12, stride=1, wrap=False, failshare=2),
+              dict(callers=6, rounds=6, stride=1, wrap=False, level="client", failshare=2)]
     if not q:
         stress += [dict(callers=64, rounds=4, stride=1, wrap=True), dict(callers=64, rounds=2, stride=70000, wrap=False),
                    dict(callers=300, rounds=2, stride=1, wrap=False), dict(callers=8, rounds=3, stride=1, wrap=False, level="client"),
                    dict(callers=32, rounds=4, stride=1, wrap=True, big=True), dict(callers=8, rounds=3, stride=1, wrap=False, level="client", big=True)]
     for i, s in enumerate(stress):
         cases.append({"n": base + i, "mode": "stress", "level": s.get("level", "uasc"), "wrap": s["wrap"], "callers": s["callers"],
-                      "rounds": s["rounds"], "stride": s["stride"], "big": s.get("big", False), "beh": {"steps": [], "results": []}})
+                      "rounds": s["rounds"], "stride": s["stride"], "big": s.get("big", False), "failshare": s.get("failshare", 4),
+                      "beh": {"steps": [], "results": []}})
     run.log("TLC: %d states; %d scripts generated (%d classes), %d sampled, %d many-caller runs" % (
         run.cov["states"], len(rows), nclasses, len(cases) - len(stress), len(stress)))
-    results = run.go_run(exe[0], ["-prop", "C18"], cases=cases, timeout=run.pick(600, 2400))
+    results = run.go_run(exe[0], ["-prop", "C18"], cases=cases, timeout=run.pick(600, 2400), env=sc.race_env())
     if len(results) < len(cases):
         raise vf.Inconclusive("harness returned %d results for %d cases" % (len(results), len(cases)))
     run.absorb(results)
@@ -91,7 +97,7 @@ def body(run):
             corrupted.append(cc)
         if len(corrupted) >= 6:
             break
-    cres = run.go_run(exe[0], ["-prop", "C18"], cases=corrupted, timeout=600)
+    cres = run.go_run(exe[0], ["-prop", "C18"], cases=corrupted, timeout=600, env=sc.race_env())
     rejected = sum(1 for r in cres if r.get("status") == "violation")
     run.cov["binding_demo"] = {"corrupted_expectations": len(corrupted), "rejected": rejected}
     accepted = sum(1 for r in cres if r.get("status") == "ok")  # a case that could not be driven counts as neither
